@@ -12,16 +12,15 @@ ENGINES = [
 
 NOT_APPLICABLE = {}
 
-CHECKS = {
-    "C12": dict(
-        level="model_checking",
-        text="TLC explores the implementation-shaped model of Feed/BuildResponse exhaustively within bounds, proves "
-             "it refines the abstract output-assembly spec, and every history it reaches is replayed into the real "
-             "FileManager; the recorded traces are validated by TLC against the abstract spec (fresh names inferred).",
-        design_ref="DESIGN.md 6 C12",
-        note="Trusted: TLC, the harness' rendering of segments to marker strings. Bounded alphabets (names a, b, a_1, "
-             "a_2, a_1_1; 4 contents; 3 points; 2 texts; <= 6 items in <= 3 Feed calls).",
-        technique="TLA+ refinement (Impl => Spec) + TLC-generated histories replayed + TLC trace validation"),
-}
+import importlib
+import os
+
+CHECKS = {}
+for _i in range(1, 21):
+    _id = "C%02d" % _i
+    if os.path.exists(os.path.join(os.path.dirname(os.path.abspath(__file__)), _id.lower() + ".py")):
+        _m = importlib.import_module(_id.lower())
+        if getattr(_m, "REGISTRY", None):
+            CHECKS[_id] = _m.REGISTRY
 for e in ENGINES:
     e["serves_properties"] = sorted(CHECKS)
